@@ -465,7 +465,10 @@ Qed.
 
 Lemma parse_option_el f a l s : el l s (parse_option f a l s).
 Proof.
-  unfold parse_option. pose proof (nextvis_rd f l s) as X. destruct (nextvis f l s) as [[c r] s1].
+  unfold parse_option. set (named := araw a && negb (valid s =? 0) && (ostart f =? 0)).
+  assert (X : let '(c, r, s1) := (if named then getchar l s else nextvis f l s) in rd l s c r s1)
+    by (destruct named; [apply getchar_rd|apply nextvis_rd]).
+  destruct (if named then getchar l s else nextvis f l s) as [[c r] s1].
   destruct (c <? 0) eqn:CN.
   - destruct (negb (c =? -2)).
     + eapply el_after; [exact X| |split; cbn; now autorewrite with pst]. stop_leaf.
@@ -475,7 +478,7 @@ Proof.
   - apply Z.ltb_ge in CN. pose proof (rd_pre _ _ _ _ _ X CN) as P.
     eapply el_pre; [exact P|].
     destruct (negb (ostart f =? 0) && negb (c =? ostart f) && negb (valid s1 =? 0)); [stop_leaf|].
-    eapply el_pre; [|apply option_loop_el]. auto with pre.
+    eapply el_pre; [|apply option_loop_el]. destruct named; auto with pre.
 Qed.
 
 (* ---------------------------------------------------------------- sections, prefix style *)
